@@ -120,20 +120,31 @@ pub fn outline(c: &mut Chooser, task: &ExternalTask) -> Vec<Entry> {
                     atom(&p, vec![iv("N")]),
                     cmp(iv("N"), fol::Relation::GreaterEqual, num(lower)),
                 );
-                if c.flag(1, 2) {
-                    let q = c.pick(&known).clone();
-                    f = g::bin(
-                        fol::BinaryConnective::Conjunction,
-                        f,
-                        g::quant(
-                            false,
-                            vec![v(if c.flag(1, 3) { "N" } else { "M" }, fol::Sort::Integer)],
-                            g::bin(
-                                fol::BinaryConnective::Implication,
-                                atom(&q, vec![iv("N")]),
-                                cmp(iv("M"), fol::Relation::LessEqual, iv("N")),
-                            ),
+                if c.flag(2, 3) {
+                    // a part that re-binds the induction variable (or binds another one): the
+                    // substitution of the base case and of the step must leave it alone
+                    let q = c.pick::<String>(&known).clone();
+                    let bound = if c.flag(1, 2) { "N" } else { "M" };
+                    let inner = match c.next(5) {
+                        0 => atom(&q, vec![iv(bound)]),
+                        1 => g::not(atom(&q, vec![iv(bound)])),
+                        2 => cmp(iv(bound), fol::Relation::GreaterEqual, num(c.next(3) as isize)),
+                        3 => g::bin(
+                            fol::BinaryConnective::Implication,
+                            atom(&q, vec![iv(bound)]),
+                            cmp(iv(bound), fol::Relation::LessEqual, iv("N")),
                         ),
+                        _ => g::bin(
+                            fol::BinaryConnective::Implication,
+                            atom(&q, vec![iv("N")]),
+                            cmp(iv("M"), fol::Relation::LessEqual, iv("N")),
+                        ),
+                    };
+                    let shadow = g::quant(c.flag(1, 2), vec![v(bound, fol::Sort::Integer)], inner);
+                    f = g::bin(
+                        if c.flag(2, 3) { fol::BinaryConnective::Conjunction } else { fol::BinaryConnective::Disjunction },
+                        f,
+                        shadow,
                     );
                 }
                 let with_y = c.flag(1, 3);
